@@ -486,6 +486,17 @@ func c04(c *Ctx) {
 				}
 			}
 			c.R.Check(goodCtx, load.FuncName(rf)+": context forwarded", c.pos(rf.Pos()), "req.Context = rsp.GetContext()", "the context returned by the function is not passed to the next round")
+			if ctxStore != nil {
+				// … in every round that goes on, whatever the requirements contain
+				round := cfgx.LoopOf(inner[0].Block())
+				own := cfgx.LoopOf(ctxStore.Block())
+				sameLoop := round != nil && own != nil && len(own) == len(round) && own[inner[0].Block()]
+				by := true
+				if round != nil {
+					by, _ = cfgx.LoopBypass(round, map[*ssa.BasicBlock]bool{ctxStore.Block(): true}, nil, nil)
+				}
+				c.R.Check(sameLoop && !by, load.FuncName(rf)+": context forwarded in every round", c.pos(ctxStore.Pos()), "the context is refreshed once per round, on every way into the next round", "the context is refreshed only on some ways into the next round (inside the loop over the requirements, or behind a condition): a round with no selectors re-sends a stale context")
+			}
 		} else {
 			c.R.Unknown(load.FuncName(rf)+": wrapped call", c.pos(rf.Pos()), "expected one wrapped RunFunction call")
 		}
